@@ -215,9 +215,21 @@ fn state_sweep_case(seed: u64, idx: u64) -> CaseOut {
     ];
     let tmpl: String = KEYS
         .iter()
-        .map(|k| if *k == "wide_bar" || *k == "wide_msg" { format!("{{{k}}}") } else if rng.chance(1, 3) { format!("{{{k}:>{}}}", rng.range(0, 30)) } else { format!("{{{k}}}") })
+        .map(|k| if *k == "wide_bar" || *k == "wide_msg" { format!("{{{k}}}") } else if rng.chance(1, 2) { format!("{{{k}:{}{}{}}}", rng.pick(&["<", "^", ">"]), rng.range(0, 30), if rng.chance(1, 2) { "!" } else { "" }) } else { format!("{{{k}}}") })
         .collect::<Vec<_>>()
         .join("\n");
+    // texts of every UTF-8 shape for the message and the prefix (they meet padded and truncating fields)
+    const TEXTS: [&str; 9] = [
+        "",
+        "msg",
+        "a fairly long plain message that will not fit into any of the narrow fields of this template",
+        "\u{65e5}\u{672c}\u{8a9e}\u{65e5}\u{672c}\u{8a9e}\u{65e5}\u{672c}\u{8a9e}\u{65e5}\u{672c}\u{8a9e}\u{65e5}\u{672c}\u{8a9e}\u{65e5}\u{672c}\u{8a9e}",
+        "\u{1f680}\u{1f680}\u{1f680}\u{1f680} launch \u{1f680}\u{1f680}\u{1f680}\u{1f680}\u{1f680}\u{1f680}\u{1f680}\u{1f680}\u{1f680}\u{1f680}\u{1f680}\u{1f680}",
+        "e\u{301}te\u{301} e\u{301}te\u{301} e\u{301}te\u{301} e\u{301}te\u{301} e\u{301}te\u{301} e\u{301}te\u{301}",
+        "\u{dc}n\u{ef}c\u{f6}d\u{e9} \u{df}tring \u{dc}n\u{ef}c\u{f6}d\u{e9} \u{df}tring \u{dc}n\u{ef}c\u{f6}d\u{e9} \u{df}tring",
+        "\x1b[31mred\x1b[0m text \x1b[1;32mgreen and bold and long enough to be cut\x1b[0m",
+        "\u{2588}\u{2588}\u{2591}\u{2591}\u{2026}\u{2588}\u{2588}\u{2591}\u{2591}\u{2026}\u{2588}\u{2588}\u{2591}\u{2591}\u{2026}\u{2588}\u{2588}\u{2591}\u{2591}\u{2026}",
+    ];
     let clock = std::sync::Arc::new(AtomicU64::new(14_000_000_000));
     crate::world::install_session(&clock);
     let len0 = *rng.pick(&[None, Some(0u64), Some(1), Some(10), Some(1 << 63), Some(u64::MAX - 1), Some(u64::MAX)]);
@@ -239,9 +251,11 @@ fn state_sweep_case(seed: u64, idx: u64) -> CaseOut {
             };
             clock.fetch_add(adv, Ordering::SeqCst);
             let big = *rng.pick(&[1u64, 2, 1000, 1 << 32, 1 << 62, u64::MAX / 2, u64::MAX - 1, u64::MAX]);
-            let op = rng.below(14);
+            let op = rng.below(16);
             history.push(format!("+{adv}ns op{op}({big})"));
             match op {
+                14 => pb.set_message(*rng.pick(&TEXTS)),
+                15 => pb.set_prefix(*rng.pick(&TEXTS)),
                 0 | 1 => pb.inc(1),
                 2 => pb.inc(big),
                 3 => pb.set_position(big),
